@@ -117,8 +117,9 @@ def numeq(x, y):
     """
     if math.isnan(x) and math.isnan(y):
         return True
-    if math.isinf(x) and math.isinf(y):
-        return (x > 0.0) == (y > 0.0)
+    if math.isinf(x) or math.isinf(y):
+        # an infinity equals only the same infinity: a relative tolerance times infinity would admit every number
+        return x == y
     if relativeTolerance > 0.0 and absoluteTolerance > 0.0:
         return abs(x - y) <= max(relativeTolerance * max(abs(x), abs(y)), absoluteTolerance)
     if relativeTolerance > 0.0:
